@@ -12,6 +12,8 @@ import (
 const (
 	maxLengthBytes   = math.MaxInt16
 	maxLengthedBytes = math.MaxInt32
+	// lengthedReadChunk is the most bytes allocated before they arrive.
+	lengthedReadChunk = 1 << 20
 )
 
 type Byter interface {
@@ -243,11 +245,25 @@ func ReadLengthed(r io.Reader) (read uint64, _ []byte, _ error) {
 		return n, nil, errors.Errorf("huge size, %v", i)
 	}
 
-	p := make([]byte, i)
+	// NOTE length is told by the sender; the buffer grows as the bytes arrive
+	p := make([]byte, 0, min(i, lengthedReadChunk))
 
-	m, err := EnsureRead(context.Background(), r, p)
+	for {
+		b := make([]byte, min(i-uint64(len(p)), lengthedReadChunk))
 
-	return n + m, p, err
+		m, err := EnsureRead(context.Background(), r, b)
+		n += m
+		p = append(p, b[:m]...)
+
+		switch {
+		case err != nil && !errors.Is(err, io.EOF):
+			return n, p, err
+		case uint64(len(p)) == i:
+			return n, p, err
+		case err != nil:
+			return n, p, errors.Errorf("insufficient read")
+		}
+	}
 }
 
 func NewLengthedBytesSlice(m [][]byte) ([]byte, error) {
